@@ -410,8 +410,23 @@ func v3(w *World, r *Report) {
 			})
 			good := g != nil && ok
 			if good {
-				for _, c := range CallsIn(fn) {
-					if _, isM := mutatesZ(c.Common()); isM && !g.Protects(c.Block()) {
+				// under "amount > balance" no path (helpers expanded) touches the balance
+				mut := func(in ssa.Instruction) string {
+					if c, isC := in.(ssa.CallInstruction); isC {
+						if _, isM := mutatesZ(c.Common()); isM {
+							return "MUT"
+						}
+					}
+					return ""
+				}
+				fe := w.newFactEval(nil, A("p0", ">", "recv.Balance"))
+				saved := w.branchMarkers
+				w.branchMarkers = false
+				paths, complete := w.enumPaths(fn, fe.eval, mut, 2000)
+				w.branchMarkers = saved
+				good = complete && len(fe.used) > 0
+				for _, p := range paths {
+					if len(p.Events) > 0 {
 						good = false
 					}
 				}
